@@ -14,24 +14,23 @@ demo_file=$(ls $DEMO/*_test.go 2>/dev/null | head -1)
 place=$(grep -m1 -o 'place at: *[^ ]*' "$demo_file" | sed 's/place at: *//')
 [ -z "$place" ] && place=$(grep -m1 -io 'place at[: ]*[^ ]*' $DEMO/README.txt | awk '{print $NF}')
 pkgdir=$(dirname "$place")
-run_demo() { (cd $WT && cp "$demo_file" "$place" && timeout 300 go test -vet=off -count=1 -run 'Demo' ./$pkgdir 2>&1 | tail -3; rm -f "$place"); }
+run_demo() { (cd $WT && cp "$demo_file" "$place" && timeout 600 go test -vet=off -count=1 -run "$(grep -o '^func Test[A-Za-z0-9_]*' "$demo_file" | sed 's/func //' | paste -sd'|')" ./$pkgdir 2>&1 | tail -3; rm -f "$place"); }
 echo "== demo on unchanged tree"; without=$(run_demo); echo "$without" | tail -2
 (cd $WT && git apply $DIFF) || { echo "PATCH DOES NOT APPLY"; exit 2; }
 echo "== project tests with the change"; tests=$(cd $WT && go build ./... && go test -vet=off -count=1 ./... 2>&1 | grep -v "no test files" | tail -8); echo "$tests"
 echo "== demo with the change"; with=$(run_demo); echo "$with" | tail -2
-git -C /repo worktree remove --force $WT
-# our checks against it
-(cd /repo && git apply $DIFF)
+# our checks against it (a scratch worktree with the change, selected by VERIF_REPO, so that /repo
+# itself stays untouched while other jobs read it)
 declare -A RES
 for c in $CHECKS; do
-  r=$(cd /verif && timeout 3000 ./check $c quick 2>&1 | grep -E "VIOLATION|KNOWN-FINDING" | head -3)
+  r=$(cd /verif && VERIF_REPO=$WT timeout 3000 ./check $c quick 2>&1 | grep -E "VIOLATION|KNOWN-FINDING" | head -3)
   tier=quick
-  if ! echo "$r" | grep -q VIOLATION; then r=$(cd /verif && timeout 7200 ./check $c thorough 2>&1 | grep -E "VIOLATION" | head -3); tier=thorough; fi
+  if ! echo "$r" | grep -q VIOLATION; then r=$(cd /verif && VERIF_REPO=$WT timeout 7200 ./check $c thorough 2>&1 | grep -E "VIOLATION" | head -3); tier=thorough; fi
   RES[$c]="$tier: ${r:-no violation reported}"
   echo "== check $c -> ${RES[$c]}"
   [ -f /verif/replays/$c-1-$tier.json ] && cp /verif/replays/$c-1-$tier.json $OUT/replay-$c.json
 done
-(cd /repo && git checkout -- . && git status --short | grep -v '^??' )
+git -C /repo worktree remove --force $WT
 cp $DIFF $OUT/patch.diff; cp -r $DEMO $OUT/demo 2>/dev/null
 python3 - "$PROP" "$NAME" "$OUT" "$without" "$with" "$tests" "$(for c in $CHECKS; do echo "$c => ${RES[$c]}"; done)" <<'PY'
 import sys, json
